@@ -20,6 +20,7 @@ use pest::iterators::Pairs;
 use pest::unicode::unicode_property_names;
 use pest::Span;
 
+use crate::ast::RuleType;
 use crate::parser::{ParserExpr, ParserNode, ParserRule, Rule};
 
 static RUST_KEYWORDS: LazyLock<HashSet<&'static str>> = LazyLock::new(|| {
@@ -624,90 +625,148 @@ fn validate_whitespace_comment<'a, 'i: 'a>(rules: &'a [ParserRule<'i>]) -> Vec<E
 }
 
 fn validate_left_recursion<'a, 'i: 'a>(rules: &'a [ParserRule<'i>]) -> Vec<Error<Rule>> {
-    left_recursion(to_hash_map(rules))
+    let types = rules.iter().map(|r| (r.name.clone(), r.ty)).collect();
+    left_recursion(to_hash_map(rules), &types)
 }
 
 fn to_hash_map<'a, 'i: 'a>(rules: &'a [ParserRule<'i>]) -> HashMap<String, &'a ParserNode<'i>> {
     rules.iter().map(|r| (r.name.clone(), &r.node)).collect()
 }
 
-fn left_recursion<'a, 'i: 'a>(rules: HashMap<String, &'a ParserNode<'i>>) -> Vec<Error<Rule>> {
+/// Whether implicit `WHITESPACE`/`COMMENT` skips run inside rule `name` when it is entered
+/// from a place where they do (`skips`) or do not run.
+fn skips_inside(name: &str, types: &HashMap<String, RuleType>, skips: bool) -> bool {
+    if name == "WHITESPACE" || name == "COMMENT" {
+        return false;
+    }
+    match types.get(name) {
+        Some(RuleType::Atomic) | Some(RuleType::CompoundAtomic) => false,
+        Some(RuleType::NonAtomic) => true,
+        _ => skips,
+    }
+}
+
+fn left_recursion<'a, 'i: 'a>(
+    rules: HashMap<String, &'a ParserNode<'i>>,
+    types: &HashMap<String, RuleType>,
+) -> Vec<Error<Rule>> {
+    // The search is over (rule, whether implicit skips run inside it): the same rule entered with
+    // and without skipping behaves differently, so only a return to the same pair is a recursion.
+    type Entered = (String, bool);
+
+    /// Enters rule `other`, referred to (explicitly or by an implicit skip) at `span`.
+    fn enter<'a, 'i: 'a>(
+        other: String,
+        span: Span<'i>,
+        rules: &'a HashMap<String, &ParserNode<'i>>,
+        types: &HashMap<String, RuleType>,
+        trace: &mut Vec<Entered>,
+        done: &mut HashSet<Entered>,
+        skips: bool,
+    ) -> Option<Error<Rule>> {
+        let key = (other.clone(), skips_inside(&other, types, skips));
+        if trace[0] == key {
+            trace.push(key);
+            let chain = trace
+                .iter()
+                .map(|(ident, _)| ident.as_ref())
+                .collect::<Vec<_>>()
+                .join(" -> ");
+
+            return Some(Error::new_from_span(
+                ErrorVariant::CustomError {
+                    message: format!(
+                        "rule {} is left-recursive ({}); pest::pratt_parser might be useful \
+                         in this case",
+                        other,
+                        chain
+                    ),
+                },
+                span,
+            ));
+        }
+
+        // a rule that was searched completely without reaching `trace[0]` need not be
+        // searched again from another position (each pair is entered once per start)
+        if !trace.contains(&key) && !done.contains(&key) {
+            if let Some(node) = rules.get(&key.0) {
+                let skips = key.1;
+                trace.push(key.clone());
+                let result = check_expr(node, rules, types, trace, done, skips);
+                trace.pop().unwrap();
+                if result.is_none() {
+                    done.insert(key);
+                }
+
+                return result;
+            }
+        }
+
+        None
+    }
+
     fn check_expr<'a, 'i: 'a>(
         node: &'a ParserNode<'i>,
         rules: &'a HashMap<String, &ParserNode<'i>>,
-        trace: &mut Vec<String>,
-        done: &mut HashSet<String>,
+        types: &HashMap<String, RuleType>,
+        trace: &mut Vec<Entered>,
+        done: &mut HashSet<Entered>,
+        skips: bool,
     ) -> Option<Error<Rule>> {
         match node.expr.clone() {
-            ParserExpr::Ident(other) => {
-                if trace[0] == other {
-                    trace.push(other);
-                    let chain = trace
-                        .iter()
-                        .map(|ident| ident.as_ref())
-                        .collect::<Vec<_>>()
-                        .join(" -> ");
-
-                    return Some(Error::new_from_span(
-                        ErrorVariant::CustomError {
-                            message: format!(
-                                "rule {} is left-recursive ({}); pest::pratt_parser might be useful \
-                                 in this case",
-                                node.span.as_str(),
-                                chain
-                            )
-                        },
-                        node.span
-                    ));
-                }
-
-                // a rule that was searched completely without reaching `trace[0]` need not be
-                // searched again from another position (each rule is entered once per start rule)
-                if !trace.contains(&other) && !done.contains(&other) {
-                    if let Some(node) = rules.get(&other) {
-                        trace.push(other.clone());
-                        let result = check_expr(node, rules, trace, done);
-                        trace.pop().unwrap();
-                        if result.is_none() {
-                            done.insert(other);
-                        }
-
-                        return result;
-                    }
-                }
-
-                None
-            }
+            ParserExpr::Ident(other) => enter(other, node.span, rules, types, trace, done, skips),
             ParserExpr::Seq(ref lhs, ref rhs) => {
-                if is_non_failing(&lhs.expr, rules, &mut vec![trace.last().unwrap().clone()])
-                    || is_non_progressing(
-                        &lhs.expr,
-                        rules,
-                        &mut vec![trace.last().unwrap().clone()],
-                    )
+                let current = trace.last().unwrap().0.clone();
+                if is_non_failing(&lhs.expr, rules, &mut vec![current.clone()])
+                    || is_non_progressing(&lhs.expr, rules, &mut vec![current])
                 {
-                    // `lhs` may match without consuming input: both what it calls first
-                    // and what `rhs` calls first are reached at the same position.
-                    check_expr(lhs, rules, trace, done).or_else(|| check_expr(rhs, rules, trace, done))
+                    // `lhs` may match without consuming input: what it calls first, the implicit
+                    // WHITESPACE / COMMENT skip after it (outside atomic rules) and what `rhs`
+                    // calls first are all reached at the same position.
+                    check_expr(lhs, rules, types, trace, done, skips)
+                        .or_else(|| {
+                            if !skips {
+                                return None;
+                            }
+                            ["WHITESPACE", "COMMENT"].iter().find_map(|name| {
+                                if rules.contains_key(*name) {
+                                    enter(
+                                        name.to_string(),
+                                        lhs.span,
+                                        rules,
+                                        types,
+                                        trace,
+                                        done,
+                                        skips,
+                                    )
+                                } else {
+                                    None
+                                }
+                            })
+                        })
+                        .or_else(|| check_expr(rhs, rules, types, trace, done, skips))
                 } else {
-                    check_expr(lhs, rules, trace, done)
+                    check_expr(lhs, rules, types, trace, done, skips)
                 }
             }
             ParserExpr::Choice(ref lhs, ref rhs) => {
-                check_expr(lhs, rules, trace, done).or_else(|| check_expr(rhs, rules, trace, done))
+                check_expr(lhs, rules, types, trace, done, skips)
+                    .or_else(|| check_expr(rhs, rules, types, trace, done, skips))
             }
-            ParserExpr::Rep(ref node) => check_expr(node, rules, trace, done),
-            ParserExpr::RepOnce(ref node) => check_expr(node, rules, trace, done),
-            ParserExpr::Opt(ref node) => check_expr(node, rules, trace, done),
-            ParserExpr::PosPred(ref node) => check_expr(node, rules, trace, done),
-            ParserExpr::NegPred(ref node) => check_expr(node, rules, trace, done),
-            ParserExpr::Push(ref node) => check_expr(node, rules, trace, done),
+            ParserExpr::Rep(ref node) => check_expr(node, rules, types, trace, done, skips),
+            ParserExpr::RepOnce(ref node) => check_expr(node, rules, types, trace, done, skips),
+            ParserExpr::Opt(ref node) => check_expr(node, rules, types, trace, done, skips),
+            ParserExpr::PosPred(ref node) => check_expr(node, rules, types, trace, done, skips),
+            ParserExpr::NegPred(ref node) => check_expr(node, rules, types, trace, done, skips),
+            ParserExpr::Push(ref node) => check_expr(node, rules, types, trace, done, skips),
             ParserExpr::RepExact(ref node, _)
             | ParserExpr::RepMin(ref node, _)
             | ParserExpr::RepMax(ref node, _)
-            | ParserExpr::RepMinMax(ref node, _, _) => check_expr(node, rules, trace, done),
+            | ParserExpr::RepMinMax(ref node, _, _) => {
+                check_expr(node, rules, types, trace, done, skips)
+            }
             #[cfg(feature = "grammar-extras")]
-            ParserExpr::NodeTag(ref node, _) => check_expr(node, rules, trace, done),
+            ParserExpr::NodeTag(ref node, _) => check_expr(node, rules, types, trace, done, skips),
             _ => None,
         }
     }
@@ -715,10 +774,22 @@ fn left_recursion<'a, 'i: 'a>(rules: HashMap<String, &'a ParserNode<'i>>) -> Vec
     let mut errors = vec![];
 
     for (name, node) in &rules {
-        let name = name.clone();
-
-        if let Some(error) = check_expr(node, &rules, &mut vec![name], &mut HashSet::new()) {
-            errors.push(error);
+        // a rule can be the start rule of a parse (skipping on, unless the rule says otherwise)
+        // and can be called from an atomic rule (skipping off, unless the rule says otherwise)
+        let mut modes = vec![skips_inside(name, types, true), skips_inside(name, types, false)];
+        modes.dedup();
+        for skips in modes {
+            if let Some(error) = check_expr(
+                node,
+                &rules,
+                types,
+                &mut vec![(name.clone(), skips)],
+                &mut HashSet::new(),
+                skips,
+            ) {
+                errors.push(error);
+                break;
+            }
         }
     }
 
